@@ -211,12 +211,12 @@ def run(ctx):
     info = ctx.coq_props()
     have_model = (vlib.COQ / "C10" / "Model.vo").exists()
     quick = ctx.quick
-    tie = model_tie(ctx, 240 if quick else 1500, have_model)
+    tie = model_tie(ctx, 240 if quick else 1200, have_model)
     configs = [(0, 0, None), (1, 3000, None), (2, 0, "ridx"), (3, 20000, ["rand", ctx.seed]), (0, 0, None)]
     if not quick:
         configs += [(4, 500, "lifo"), (5, 77777, None), (6, 100, "fifo"), (7, 9000, ["rand", ctx.seed + 1]),
                     (8, 0, "idx"), (9, 40000, None), (10, 1234, ["rand", ctx.seed + 2])]
-    search = determinism_search(ctx, 40 if quick else 300, 30 if quick else 200, configs)
+    search = determinism_search(ctx, 40 if quick else 200, 30 if quick else 150, configs)
 
     # whole-compiler inventory: reported, not part of the tie
     try:
